@@ -106,9 +106,9 @@ def replay_of(r, what, **extra):
 def run(res, tier, seed):
     common.build_harness()
     quick = tier == "quick"
-    n_lit = 2400 if quick else 20000
-    n_raw = 1200 if quick else 10000
-    n_tmpl = 800 if quick else 8000
+    n_lit = 2000 if quick else 20000
+    n_raw = 1000 if quick else 10000
+    n_tmpl = 600 if quick else 8000
     probe, _ = common.run_harness(["c13-probe"])
     lit, _ = common.run_harness(["c13-lit", "-seed", seed, "-n", n_lit])
     raw, _ = common.run_harness(["c13-raw", "-seed", seed, "-n", n_raw])
@@ -197,13 +197,11 @@ def run(res, tier, seed):
             violate(replay_of(r, "the literal built with the escapes does not evaluate to the text", delimiter=show(DELIMS[r["d"]]),
                               text_hex=hexs(s), text=show(s), escape_choices=r.get("bits", [])))
     for r in probe:
-        if r["esc"] and len(r["src"]) == 5 and r["b"] < 128:      # <d>\<b>q<d>
+        if r.get("esc") and len(r["src"]) == 5 and r["b"] < 128:      # <d>\<b>q<d>
             b = r["b"]
             d = DELIMS[r["d"]][0]
             if b == d and b not in DOCUMENTED:
                 continue                                          # `\`q` : lone backslash, then the literal ends
-            if b == ord("{") and r["d"] >= 2:
-                pass
             want = [DOCUMENTED[b], ord("q")] if b in DOCUMENTED else [92, b, ord("q")]
             if not (r["ok"] and r["str"] == want):
                 violate(replay_of(r, "escape sequence does not denote the documented character", expected_hex=hexs(want)))
